@@ -21,6 +21,9 @@ TRUSTED = ['rustc const evaluation + MIR construction (nightly)', 'pdb-facts dri
 
 def run(ctx):
     shared.chain_link_markers_agree(ctx, '9m')
+    # the allocator the chain writer takes its slots from: a slot popped off the free list changes the header as much as an appended one
+    # (a stale free-list head on disk hands a live slot out again after a reopen, and the chain writer overwrites a stored value)
+    shared.borrow(ctx, 'C14', '1b header-marked-dirty', '12b slot-claims-mark-the-header-dirty')
     codec_refusal_is_not_a_panic(ctx)
     uncounted_set_is_always_written(ctx)
     F = ctx.F
